@@ -17,6 +17,16 @@ package client
 // speaks about what a read of the frame consumes, not about resuming a half-consumed frame.
 // Added after the independently seeded change C04-7 (the deferred response read was put behind a
 // sync.Once, so after one timed-out Read the next Read handed the raw frame to the application).
+//
+// New dimension: HOW THE APPLICATION DRAINS the returned connection. Relay loops do not call Read
+// themselves: they hand the connection to io.Copy, which uses whichever capability the value offers
+// (io.WriterTo when the connection implements it, a Read loop otherwise). "read" = io.ReadFull as
+// before; "io.Copy" = io.Copy(writer-only sink, conn), also for the attempts that time out before
+// the response exists. The clauses are the same on both paths: the status and message of the
+// response come back identical (DialError{message}) and the first byte the sink receives is the
+// first payload byte behind the frame. Added after the independently seeded change C04-11 (tcpConn
+// gained a WriteTo that copies straight from the QUIC stream, so with fast open an io.Copy handed
+// the raw response frame to the application and an error status never became a DialError).
 
 import (
 	"bytes"
@@ -55,6 +65,18 @@ type c04FOCase struct {
 	// Payload: 0 = text; 1 = the payload itself starts with bytes that form a valid TCPResponse
 	// frame (a reader that parses twice swallows them)
 	Payload int `json:"payload_class"`
+	// Drain: "" / "read" = the application calls Read (io.ReadFull); "io.Copy" = the application hands
+	// the connection to io.Copy with a sink that only has Write, as relay loops do (C04-11)
+	Drain string `json:"drain,omitempty"`
+}
+
+// c04FOSink is a writer with no capability but Write (no ReadFrom), so io.Copy(sink, conn) takes
+// conn's WriteTo if it has one and a plain Read loop otherwise.
+type c04FOSink struct{ b []byte }
+
+func (s *c04FOSink) Write(p []byte) (int, error) {
+	s.b = append(s.b, p...)
+	return len(p), nil
 }
 
 const c04FOAddr = "fastopen.example:443"
@@ -215,9 +237,17 @@ func c04FOBody(e *vsched.Exec, c *c04FOCase) {
 		buf := make([]byte, 64)
 		for i := 0; i < c.Timeouts; i++ {
 			_ = conn.SetReadDeadline(vtime.Now().Add(100 * vtime.Millisecond))
-			n, err := conn.Read(buf)
+			var n int
+			var err error
+			if c.Drain == "io.Copy" {
+				sink := &c04FOSink{}
+				_, err = io.Copy(sink, conn)
+				n = len(sink.b)
+			} else {
+				n, err = conn.Read(buf)
+			}
 			if n != 0 || err == nil {
-				e.Fail("Read #%d returned (%d bytes, %v) before the server wrote the first byte of its response", i+1, n, err)
+				e.Fail("drain attempt #%d returned (%d bytes, %v) before the server wrote the first byte of its response", i+1, n, err)
 			}
 			if tcpStr != nil && tcpStr.WrittenTotal() != 0 {
 				e.Fail("harness: the server double wrote before the dial was released")
@@ -227,16 +257,26 @@ func c04FOBody(e *vsched.Exec, c *c04FOCase) {
 		dialDone = true
 	}
 	if tcpErr == nil {
-		got := make([]byte, len(payload))
-		n, err := io.ReadFull(conn, got)
-		got = got[:n]
+		var got []byte
+		var n int
+		var err error
+		if c.Drain == "io.Copy" {
+			// the whole stream up to its end; io.Copy reports the end of the stream as a nil error
+			sink := &c04FOSink{}
+			_, err = io.Copy(sink, conn)
+			got, n = sink.b, len(sink.b)
+		} else {
+			got = make([]byte, len(payload))
+			n, err = io.ReadFull(conn, got)
+			got = got[:n]
+		}
 		if c.OK {
 			switch {
 			case err != nil && n == 0:
 				e.Fail("response (ok, %d-byte message) read as an error: %v", c.MsgLen, err)
 			case !bytes.Equal(got, payload):
 				k := 0
-				for k < len(got) && got[k] == payload[k] {
+				for k < len(got) && k < len(payload) && got[k] == payload[k] {
 					k++
 				}
 				what := "payload bytes swallowed or altered"
@@ -303,11 +343,15 @@ func c04FOEnumerate(sh *evidence.Shard) {
 		encs = [][2]int{{0, 0}, {2, 4}, {4, 2}, {8, 8}}
 	}
 	arrivals := []string{"whole", "frame,payload", "bytes"}
+	// how the application drains the connection (added after the independently seeded change C04-11:
+	// a WriteTo on tcpConn that bypassed the deferred fast-open response read)
+	drains := []string{"read", "io.Copy"}
 	p.Alphabet = map[string]any{
 		"fast_open": []bool{true, false}, "status_ok": []bool{true, false}, "msg_len": msgLens, "pad": pads,
 		"length_field_widths(msg,pad; 0=minimal)":                     encs,
 		"reads_timed_out_before_the_response_exists (fast open only)": timeouts,
 		"arrival": arrivals, "payload_class": []string{"text", "starts with a valid TCPResponse frame"},
+		"drain (Read by the application | io.Copy into a Write-only sink: WriterTo if the connection offers it)": drains,
 	}
 	var item int64
 	for _, fo := range []bool{true, false} {
@@ -334,32 +378,34 @@ func c04FOEnumerate(sh *evidence.Shard) {
 									if !okv && (pc > 0 || arr == "frame,payload") {
 										continue // an error response is followed by nothing
 									}
-									item++
-									if !env.Mine(item) {
-										continue
-									}
-									if item&63 == 0 && env.Expired() {
-										p.Exhaustive = false
-										p.Note("deadline: stopped at case %d", item)
-										return
-									}
-									c := c04FOCase{FastOpen: fo, OK: okv, MsgLen: ml, MsgW: mw, Pad: pad, PadW: pw, Timeouts: to, Arrival: arr, Payload: pc}
-									p.Evaluations++
-									clause := c04FORun(&c)
-									p.Class(fo, okv, ml, mw, pad, pw, to, arr, pc, clause == "")
-									if p.Evaluations%29 == 1 {
-										p.Sample(c)
-									}
-									if clause != "" {
-										cc := c
-										short := clause
-										if len(short) > 100 {
-											short = short[:100]
+									for _, dr := range drains {
+										item++
+										if !env.Mine(item) {
+											continue
 										}
-										sh.Violate(p.Name, fmt.Sprintf("%s/%s/fastopen=%v,ok=%v,msg=%d(w%d),pad=%d(w%d),timeouts=%d,arrival=%s,payload=%d", p.Name, short, fo, okv, ml, mw, pad, pw, to, arr, pc), clause, &cc)
-										if sh.NViolations() >= 4 {
+										if item&63 == 0 && env.Expired() {
 											p.Exhaustive = false
+											p.Note("deadline: stopped at case %d", item)
 											return
+										}
+										c := c04FOCase{FastOpen: fo, OK: okv, MsgLen: ml, MsgW: mw, Pad: pad, PadW: pw, Timeouts: to, Arrival: arr, Payload: pc, Drain: dr}
+										p.Evaluations++
+										clause := c04FORun(&c)
+										p.Class(fo, okv, ml, mw, pad, pw, to, arr, pc, dr, clause == "")
+										if p.Evaluations%29 == 1 {
+											p.Sample(c)
+										}
+										if clause != "" {
+											cc := c
+											short := clause
+											if len(short) > 100 {
+												short = short[:100]
+											}
+											sh.Violate(p.Name, fmt.Sprintf("%s/%s/fastopen=%v,ok=%v,msg=%d(w%d),pad=%d(w%d),timeouts=%d,arrival=%s,payload=%d,drain=%s", p.Name, short, fo, okv, ml, mw, pad, pw, to, arr, pc, dr), clause, &cc)
+											if sh.NViolations() >= 4 {
+												p.Exhaustive = false
+												return
+											}
 										}
 									}
 								}
